@@ -134,7 +134,8 @@ func HarnessChannelWiring() {
 	}
 }
 
-// Two tasks binding different endpoints under the same global alias are rejected.
+// Two tasks binding different endpoints (another port, or the same port number on another host) under the same
+// global alias are rejected.
 //verif:entry HarnessGlobalAliasConflict unwind=32 preempt=0 timers=lazy reach=conflict stub=github.com/AliceO2Group/Control/common/utils.TimeTrack
 func HarnessGlobalAliasConflict() {
 	template.VerifHook_Fields_Execute = func(f template.Fields, confSvc template.ConfigurationService, parentPath string, varStack map[string]string, objStack map[string]interface{}, baseConfigStack map[string]string, cache map[string]texttemplate.Template, repo repos.IRepo) error {
@@ -151,7 +152,11 @@ func HarnessGlobalAliasConflict() {
 	b.GetTaskClass = func() *taskclass.Class { return class }
 	a.localBindMap = channel.BindMap{"::shared": channel.NewBoundTcpEndpoint(p1, channel.DEFAULT)}
 	b.localBindMap = channel.BindMap{"::shared": channel.NewBoundTcpEndpoint(p2, channel.DEFAULT)}
-	a.hostname, b.hostname = "same-host", "same-host"
+	a.hostname, b.hostname = "flp1", "flp1"
+	otherHost := vrt.Bool("other.host")
+	if otherHost {
+		b.hostname = "flp2" // another machine: the two endpoints differ even when the agents allocated the same port number
+	}
 	var w *ftWorld
 	w = ftManager(Tasks{a, b}, func(cmd controlcommands.MesosCommand, rcv controlcommands.MesosCommandTarget) error {
 		tc := cmd.(*controlcommands.MesosCommand_Transition)
@@ -161,7 +166,7 @@ func HarnessGlobalAliasConflict() {
 	err := w.m.configureTasks(env, Tasks{a, b})
 	vrt.Trace("configure error:", err)
 	// (two tasks can never bind the very same endpoint, so only the conflict is a meaningful case)
-	vrt.Assume(p1 != p2)
+	vrt.Assume(otherHost || p1 != p2)
 	vrt.Assert(err != nil, "two-different-endpoints-claiming-one-global-alias-are-rejected")
 	vrt.Reach("conflict")
 }
